@@ -9,6 +9,7 @@
 import re
 
 from engine.algebra import LocalDefs
+from engine.canon import decl_of, norm_type, roles_for
 from engine.extract import Request
 from engine.loops import describe
 from engine.tree import key
@@ -20,14 +21,40 @@ def requests():
     return [Request(ML, fn=["stir::apply_.*", "stir::make_fan_data_remove_gaps_help", "stir::set_fan_data_add_gaps_help"], files=["/repo/src/buildblock/ML_norm.cxx"])]
 
 
+def _subs(n):
+    """(root key, [index keys]) of E[i][j] / E(i, j) element expressions, by declaration ids"""
+    n = n.strip()
+    idx = []
+    while True:
+        if n.k == "CXXOperatorCallExpr" and n.op == "[]" and len(n.c) == 2:
+            idx.insert(0, n.c[1])
+            n = n.c[0].strip()
+        elif n.k == "ArraySubscriptExpr":
+            idx.insert(0, n.c[1])
+            n = n.c[0].strip()
+        elif n.k == "CXXOperatorCallExpr" and n.op == "()" and len(n.c) >= 2:
+            idx = list(n.c[1:]) + idx
+            n = n.c[0].strip()
+        else:
+            return key(n), idx
+
+
+def _strip_mod(n):
+    n = n.strip()
+    if n.k == "BinaryOperator" and n.op == "%":
+        return n.c[0].strip()
+    return n
+
+
 def rule_a(ctx, fns):
     n = 0
     for f in fns:
-        ap = [p for p in f.params if p["n"] == "apply" and "bool" in p["t"]]
-        if not ap or f.body is None or f.is_dependent:
+        # the apply flag is the function's (only) bool parameter - identified by type, never by its name
+        ap = [p for p in f.params if p["t"].replace("const ", "").strip() in ("bool", "_Bool")]
+        if len(ap) != 1 or f.body is None or f.is_dependent or not f.short.startswith("apply_"):
             continue
         ak = "v%d" % ap[0]["d"]
-        ifs = [m for m in f.walk() if m.k == "IfStmt" and key(m.c[0].strip()) == ak]
+        ifs = [m for m in f.walk() if m.k == "IfStmt" and key(m.c[0].strip()) in (ak, "(! %s)" % ak)]
         fid = f.qn + "(" + f.sig[:45] + ")"
         if not ifs:
             ctx.ob("C20.a-apply-unapply-dual", fid, "branches-on-apply", False, f.where(), "no `if (apply)` in a function with an apply flag")
@@ -37,6 +64,8 @@ def rule_a(ctx, fns):
             det = "branches are not single compound assignments"
             if len(m.c) == 3:
                 t, e = m.c[1], m.c[2]
+                if key(m.c[0].strip()).startswith("(!"):
+                    t, e = e, t
                 ts = [x for x in t.walk() if x.k in ("CompoundAssignOperator", "CXXOperatorCallExpr") and x.op in ("*=", "/=")]
                 es = [x for x in e.walk() if x.k in ("CompoundAssignOperator", "CXXOperatorCallExpr") and x.op in ("*=", "/=")]
                 if len(ts) == 1 and len(es) == 1:
@@ -46,16 +75,18 @@ def rule_a(ctx, fns):
                     ok = same_lhs and same_rhs and ops == ("*=", "/=")
                     det = "apply: %s %s F ; un-apply: %s %s F with %s" % (key(ts[0].c[0], True)[:40], ops[0], key(es[0].c[0], True)[:40], ops[1], "the same F" if same_rhs else "DIFFERENT factors %s vs %s" % (key(ts[0].c[1], True)[:60], key(es[0].c[1], True)[:60]))
                     if ok and "efficienc" in f.qn:
-                        # factor = product of the two detectors' entries
+                        # factor = E[i..] * E[j..]: both entries of the factor parameter, and the element updated is data(i.., j..)
+                        # (the second detector's last index possibly reduced modulo the number of detectors)
                         r = ts[0].c[1].strip()
+                        _droot, didx = _subs(ts[0].c[0])
                         if r.k == "BinaryOperator" and r.op == "*":
-                            a, b = key(r.c[0].strip(), True), key(r.c[1].strip(), True)
-                            two = a != b and a.startswith("efficiencies[") and b.startswith("efficiencies[")
-                            # first factor indexed by the first detector's variables, second by the second's
-                            first = re.fullmatch(r"efficiencies(\[ra\])?\[a\]", a) is not None
-                            second = re.fullmatch(r"efficiencies(\[rb\])?\[\(% b \w+\)\]", b) is not None
-                            ok = two and first and second
-                            det += "; factor = %s * %s" % (a, b)
+                            ra_, ia = _subs(r.c[0])
+                            rb_, ib = _subs(r.c[1])
+                            fpar = [p for p in f.params if "v%d" % p["d"] == ra_]
+                            both = ra_ == rb_ and bool(fpar) and ia and ib
+                            cat = [key(x) for x in ia] + [key(x) for x in ib[:-1]] + ([key(_strip_mod(ib[-1]))] if ib else [])
+                            ok = both and cat == [key(x) for x in didx] and [key(x) for x in ia] != [key(x) for x in ib]
+                            det += "; factor = %s * %s, element (%s)" % (key(r.c[0], True), key(r.c[1], True), ",".join(key(x, True) for x in didx))
                         else:
                             ok = False
                             det += "; factor is not a product of two efficiencies"
@@ -65,61 +96,61 @@ def rule_a(ctx, fns):
 
 
 def _roles(f):
-    """rename the four detector locals by their role in get_det_pair_for_bin(a, ra, b, rb, bin)"""
+    """role names from the code: the four detector locals and the bin by their position in get_det_pair_for_bin(d1, r1, d2, r2, bin);
+    parameters by type; the remaining non-inlined locals by type and order (engine/canon.py)"""
     calls = [c for c in f.calls() if (c.callee or "").endswith("::get_det_pair_for_bin")]
     if not calls:
         return None, None
-    args = [key(a, True) for a in calls[-1].call_args()]
-    if len(args) != 5:
+    args = [decl_of(a) for a in calls[-1].call_args()]
+    if len(args) != 5 or None in args:
         return None, None
-    ren = dict(zip(args[:4], ["$det1", "$ring1", "$det2", "$ring2"]))
-    ren[args[4]] = "$bin"
-    return ren, calls
-
-
-def _rename(s, ren):
-    for k in sorted(ren, key=len, reverse=True):
-        s = re.sub(r"(?<![\w$])%s(?![\w])" % re.escape(k), ren[k], s)
-    return s
+    anchors = dict(zip(args, ["$det1", "$ring1", "$det2", "$ring2", "$bin"]))
+    return anchors, calls
 
 
 def _summary(ctx, f):
-    ren, calls = _roles(f)
-    if ren is None:
-        ctx.unrec(f.qn, "no get_det_pair_for_bin(a,ra,b,rb,bin) call")
+    anchors, calls = _roles(f)
+    if anchors is None:
+        ctx.unrec(f.qn, "no get_det_pair_for_bin(a,ra,b,rb,bin) call on plain variables")
         return None
     defs = LocalDefs(f)
     sub = {d: defs.single_def(d) for d in defs.decl}
+    roles = roles_for(f, anchors, defs)
+    # integer parameters (num_rings, num_detectors_per_ring, max_delta, fan_size): both helpers receive them in the same order
+    ints = [p for p in f.params if norm_type(p["t"]) == "int"]
+    for i, p in enumerate(ints):
+        roles[p["d"]] = "$Pint#%d" % i
+    K = lambda x: key(x, roles, sub)
     out = {}
     # loops over the bin coordinates
     loops = []
     for lp in f.walk():
         if lp.k == "ForStmt":
-            init, cond, inc = (_rename(key(x, True, sub), ren) for x in lp.c[:3])
+            init, cond, inc = (K(x) for x in lp.c[:3])
             if "$bin." in init:
                 loops.append((init, cond, inc))
     out["loops"] = [l for l in loops if "segment_num" not in l[0]]
-    out["mapping_call"] = [_rename(key(a, True), ren) for a in calls[-1].call_args()]
+    out["mapping_call"] = [K(a) for a in calls[-1].call_args()]
     # gap predicates: conditions of `if (...) continue;`
     gaps = []
     for m in f.walk():
-        if m.k == "IfStmt" and len(m.c) == 2 and m.c[1].k == "ContinueStmt":
-            gaps.append(_rename(key(m.c[0], True, sub), ren))
+        if m.k == "IfStmt" and len(m.c) == 2 and (m.c[1].k == "ContinueStmt" or (m.c[1].k == "CompoundStmt" and len(m.c[1].c) == 1 and m.c[1].c[0].k == "ContinueStmt")):
+            gaps.append(K(m.c[0]))
     out["gap_predicates"] = sorted(gaps)
-    # compacted indices new_*
-    newdefs = {}
-    for d, vd in defs.decl.items():
-        if (vd.get("n") or "") in ("new_a", "new_ra", "new_b", "new_rb") and vd.c:
-            newdefs[vd.get("n")] = _rename(key(vd.c[0], True, sub), ren)
-    out["compaction"] = newdefs
-    # the transfer
+    # the transfer: assignments between a sinogram element (three subscripts by the bin's coordinates) and a fan element
+    fanpar = [p for p in f.params if norm_type(p["t"]).endswith("FanProjData")]
+    if len(fanpar) != 1:
+        ctx.unrec(f.qn, "no unique FanProjData parameter")
+        return None
+    fanrole = roles[fanpar[0]["d"]]
     tr = []
     for m in f.walk():
         if m.k in ("BinaryOperator", "CXXOperatorCallExpr") and m.op == "=" and len(m.c) == 2:
-            l, r = _rename(key(m.c[0], True), ren), _rename(key(m.c[1].strip(), True), ren)
-            if "segment_ptr" in l or "segment_ptr" in r or "fan_data(" in l.replace("(() ", "fan_data(") or "(() fan_data" in l or "(() fan_data" in r:
+            l, r = K(m.c[0]), K(m.c[1].strip())
+            if "[$bin.axial_pos_num()]" in l or "[$bin.axial_pos_num()]" in r or l.startswith("(() " + fanrole + " "):
                 tr.append((l, r))
     out["transfer"] = tr
+    out["fan"] = fanrole
     return out
 
 
@@ -132,6 +163,7 @@ def rule_b(ctx, fns):
     a, b = _summary(ctx, mk[0]), _summary(ctx, st[0])
     if a is None or b is None:
         return
+
     def swap_roles(x):
         if isinstance(x, str):
             t = x.replace("$det1", "$DET").replace("$det2", "$det1").replace("$DET", "$det2")
@@ -142,25 +174,42 @@ def rule_b(ctx, fns):
             return type(x)(swap_roles(v) for v in x)
         return x
 
+    fan_pat = re.compile(r"^\(\(\) %s (.*)\)$" % re.escape(a["fan"]))
+
+    def fan_elems(tr):
+        out = []
+        for l, r in tr:
+            for s in (l, r):
+                m = fan_pat.match(s)
+                if m:
+                    out.append(s)
+        return out
+
+    def sino_elems(tr):
+        return [s for l, r in tr for s in (l, r) if s.endswith("[$bin.axial_pos_num()][$bin.view_num()][$bin.tangential_pos_num()]")]
+
+    fa, fb = fan_elems(a["transfer"]), fan_elems(b["transfer"])
     # the fan data are symmetric in the two detectors (the to-fan direction writes both mirror entries), so one direction may
     # name the two detectors in the opposite order
-    mirrored = any("new_rb new_b new_ra new_a" in l or "new_rb new_b new_ra new_a" in r for l, r in a["transfer"])
-    for part in ("loops", "mapping_call", "gap_predicates", "compaction"):
-        ok = bool(a[part]) and (a[part] == b[part] or (mirrored and part != "loops" and (sorted(swap_roles(a[part])) if isinstance(a[part], list) and part == "gap_predicates" else swap_roles(a[part])) == b[part]))
+    mirrored = bool(fa) and bool(fb) and fb[-1] not in fa and swap_roles(fb[-1]) in fa and len(set(fa)) >= 2
+    for part in ("loops", "mapping_call", "gap_predicates"):
+        eq = a[part] == b[part]
+        if not eq and mirrored and part != "loops":
+            sw = swap_roles(a[part])
+            eq = (sorted(sw) if part == "gap_predicates" else sw) == b[part]
+        ok = bool(a[part]) and eq
         ctx.ob("C20.b-fan-conversion-dual", "make_fan_data_remove_gaps_help<->set_fan_data_add_gaps_help", part, ok, mk[0].where(), "identical in both directions (%d items)" % len(a[part]) if ok else "differs: to-fan %s vs from-fan %s" % (str(a[part])[:200], str(b[part])[:200]))
-    # transfer: to-fan writes fan(r1,d1,r2,d2) and its mirror from the sinogram element; from-fan writes the same sinogram element from fan(r1,d1,r2,d2)
-    sino = "(*segment_ptr)[$bin.axial_pos_num()][$bin.view_num()][$bin.tangential_pos_num()]"
-
-    def norm(s):
-        return s.replace("*segment_ptr", "(*segment_ptr)").replace("((*segment_ptr))", "(*segment_ptr)")
-
-    fan = "(() fan_data new_ra new_a new_rb new_b)"
-    fanm = "(() fan_data new_rb new_b new_ra new_a)"
-    ta = [(norm(l), norm(r)) for l, r in a["transfer"]]
-    tb = [(norm(l), norm(r)) for l, r in b["transfer"]]
-    to_ok = any(l == fan and (sino in r) for l, r in ta) and any(fanm in (l, r) or fanm in r for l, r in ta)
-    from_ok = any(l == sino and r == fan for l, r in tb)
-    ctx.ob("C20.b-fan-conversion-dual", "make_fan_data_remove_gaps_help<->set_fan_data_add_gaps_help", "transfer", to_ok and from_ok, st[0].where(), "to-fan: fan(r1,d1,r2,d2)=fan(r2,d2,r1,d1)=sino[ax][view][tang]; from-fan: sino[ax][view][tang]=fan(r1,d1,r2,d2)" if to_ok and from_ok else "transfer statements are not each other's reverse: %s / %s" % (ta[:3], tb[:3]))
+    # index compaction: the fan element addressed in the two directions is the same function of (ring1, det1, ring2, det2)
+    # (single-definition locals such as new_a are inlined, so this compares the compaction formulas themselves)
+    okc = bool(fa) and bool(fb) and (fb[-1] in fa)
+    ctx.ob("C20.b-fan-conversion-dual", "make_fan_data_remove_gaps_help<->set_fan_data_add_gaps_help", "compaction", okc, mk[0].where(), "the fan element read on the way back is one of the (two mirror) elements written on the way in: %s" % fb[-1][:160] if okc else "fan element differs: to-fan %s vs from-fan %s" % ([x[:200] for x in fa], [x[:200] for x in fb]))
+    # transfer: to-fan writes fan(r1,d1,r2,d2) and its mirror from the sinogram element; from-fan writes the same sinogram
+    # element from fan(r1,d1,r2,d2)
+    sa, sb = sino_elems(a["transfer"]), sino_elems(b["transfer"])
+    to_ok = len(set(fa)) == 2 and swap_roles(fa[0]) in fa and len(set(sa)) == 1 and any(fan_pat.match(l) and (r in sa or any(r.endswith(" " + s + ")") for s in sa)) for l, r in a["transfer"])
+    # normalise the sinogram element (the shared_ptr local has a role name by type; *p vs (*p))
+    from_ok = bool(sb) and any(l in sb and fan_pat.match(r) for l, r in b["transfer"]) and len(set(sb)) == 1 and set(sa) == set(sb)
+    ctx.ob("C20.b-fan-conversion-dual", "make_fan_data_remove_gaps_help<->set_fan_data_add_gaps_help", "transfer", to_ok and from_ok, st[0].where(), "to-fan: fan(r1,d1,r2,d2)=fan(r2,d2,r1,d1)=sino[ax][view][tang]; from-fan: sino[ax][view][tang]=fan(r1,d1,r2,d2)" if to_ok and from_ok else "transfer statements are not each other's reverse: %s / %s" % (a["transfer"][:3], b["transfer"][:3]))
 
 
 def run(ctx):
